@@ -30,6 +30,22 @@ Proof.
   match goal with |- context [if ?c then _ else _] => destruct c end; [split; intros H; discriminate|]. cbn [fst snd]. reflexivity.
 Qed.
 
+Theorem rename_same_view_res : forall v f it t s sfx, same_view v f ->
+  snd (m_rename t s sfx (v, it)) = snd (m_rename t s sfx (f, it)) /\
+  (forall e, snd (m_rename t s sfx (v, it)) = Err e -> fst (m_rename t s sfx (v, it)) = (v, it)).
+Proof.
+  intros v f it t s sfx (Ep & Eq & Ea & En & Er & Ee & Ec & Erc & Ev & Ex & Em).
+  destruct v as [p oq oa on oar oe ec rc ve xf mc mp ca]. destruct f as [p' oq' oa' on' oar' oe' ec' rc' ve' xf' mc' mp' ca'].
+  cbn [pp_packet pp_offset_question pp_offset_answers pp_offset_nameservers pp_offset_additional pp_offset_edns pp_edns_count
+       pp_ext_rcode pp_edns_version pp_ext_flags pp_max_payload] in *. subst.
+  unfold m_rename, cbind, getv, clift, putv. cbn [fst snd].
+  rewrite (renamer_rename_fields p' oq' oa' on' oar' oe' ec' rc' ve' xf' mc mp' ca ec' rc' ve' xf' mc' mp' ca' t s sfx).
+  destruct (renamer_rename _ t s sfx) as [r| |]; cbn [fst snd]; [|split; [reflexivity|intros; reflexivity]|split; [reflexivity|intros; discriminate]].
+  destruct (parse r) as [f2| |]; cbn [fst snd]; [|split; [reflexivity|intros; reflexivity]|split; [reflexivity|intros; discriminate]].
+  unfold edns_summary_same. cbn [pp_edns_count pp_ext_rcode pp_edns_version pp_ext_flags].
+  match goal with |- context [if ?c then _ else _] => destruct c end; cbn [fst snd]; split; try reflexivity; intros; discriminate.
+Qed.
+
 (** from any object satisfying the invariant of C08 *)
 Theorem rename_effect_dinv : forall v it sl tl sfx s', dinv v ->
   Forall lab sl -> Forall lab tl -> sl <> [] -> tl <> [] -> bytes_ok (wire_of_labels tl) ->
@@ -130,4 +146,20 @@ Proof.
   intros p v it ops s' Hb Hp Hr Hsq Hal H.
   assert (Hpk : pp_packet v = p) by (destruct (parse_shape p v Hb Hp) as (? & ? & ? & ? & ? & ? & ? & F); exact (pf_packet _ _ _ _ _ _ _ _ _ F)).
   apply (hops4_keep_objst ops v it s'); try assumption; [right; rewrite Hpk; split; assumption|rewrite Hpk; exact Hr].
+Qed.
+
+(** the rename from any object satisfying the invariant: it succeeds, or it reports an error and changes nothing; no Panic outcome *)
+Theorem rename_total_dinv : forall v it sl tl sfx, dinv v ->
+  Forall lab sl -> Forall lab tl -> sl <> [] -> tl <> [] -> bytes_ok (wire_of_labels tl) ->
+  length (wire_of_labels sl) <= 255 -> length (wire_of_labels tl) <= 255 ->
+  (exists s', m_rename (wire_of_labels tl) (wire_of_labels sl) sfx (v, it) = (s', Ok tt)) \/
+  (exists e, m_rename (wire_of_labels tl) (wire_of_labels sl) sfx (v, it) = ((v, it), Err e)).
+Proof.
+  intros v it sl tl sfx [Hmc Hb Hfix (f & Hf & Hsv)] Hsl Htl Hsl0 Htl0 Htb Hls Hlt.
+  destruct (rename_same_view_res v f it (wire_of_labels tl) (wire_of_labels sl) sfx Hsv) as [Eres Hst].
+  destruct (rename_total (pp_packet v) f it sl tl sfx Hb Hf Hsl Htl Hsl0 Htl0 Htb Hls Hlt) as [(s' & E)|(e & E)].
+  - left. exists s'. apply (rename_same_view v f it _ _ sfx s' Hsv). exact E.
+  - right. exists e. rewrite E in Eres. cbn [snd] in Eres.
+    destruct (m_rename (wire_of_labels tl) (wire_of_labels sl) sfx (v, it)) as [s1 r1] eqn:Em. cbn [snd] in Eres. subst r1.
+    specialize (Hst e eq_refl). cbn [fst] in Hst. subst s1. reflexivity.
 Qed.
